@@ -1,1 +1,1512 @@
-// placeholder: c16 monitors (not built yet)
+// C16 A record is released only after its whole batch is validated, with its verdict.
+//
+// Monitor = event log with ONE logical clock (position in the log):
+//   Req(i)            the harness is about to call `validate_record(i)`
+//   Begin{b,..}       the validation closure supplied by the harness was invoked for batch b
+//   End{b, ok}        that closure is about to return (after a harness-controlled gate opened)
+//   Release{i, res}   the future returned by `validate_record(i)` resolved
+// and an offline rule checker over that log (`check_log`), which only knows the reference model
+// "batch(i) = i / records_per_batch, last batch ends at the declared total":
+//   R1 Release(i) after Req(j) for every j of batch(i) and after End(batch(i))
+//   R2 Release(i) is Ok  <=>  End(batch(i)).ok
+//   R3 closure invoked exactly once per batch whose records were all requested, never before that,
+//      never for another batch, and with that batch's own state
+//   R4 the final partial batch closes exactly at the declared total (R3 specialised, own signature)
+//   R5 misuse is loud (Err or panic), never Ok / never silently parked      (verif_c16_misuse)
+//   R6 no quiescent-but-not-released state once a batch is complete and its gate is open
+// Executor: vlib::Manual (every poll is chosen by the harness). The second half drives the real users
+// (DZKPUpgraded::validate_record with real proofs, MAC validate_record) on the paused-clock runtime.
+
+#[cfg(not(feature = "shuttle"))]
+mod m {
+    use std::{
+        cell::RefCell,
+        future::Future,
+        pin::Pin,
+        rc::Rc,
+        task::{Context as TaskContext, Poll, Waker},
+    };
+
+    use serde_json::{Value, json};
+
+    use super::super::super::batcher::Batcher;
+    use crate::{
+        error::Error,
+        helpers::TotalRecords,
+        protocol::RecordId,
+        verif::vlib::{self, Manual, Recorder, VRng, catch, catch_fut},
+    };
+
+    // -----------------------------------------------------------------------------------------
+    // instrumented batch, event log, gates
+    // -----------------------------------------------------------------------------------------
+
+    #[derive(Debug)]
+    pub(super) struct TestBatch {
+        index: usize,
+        items: Vec<usize>,
+    }
+
+    #[derive(Clone, Debug, PartialEq)]
+    enum Res {
+        Ok,
+        Err(String),
+        Panic(String),
+    }
+
+    impl Res {
+        fn class(&self) -> String {
+            match self {
+                Res::Ok => "ok".into(),
+                Res::Err(e) => format!("err:{e}"),
+                Res::Panic(p) => format!("panic:{}", panic_class(p)),
+            }
+        }
+    }
+
+    #[derive(Clone, Debug)]
+    enum Ev {
+        Req(usize),
+        Begin { b: usize, state: usize, items: Vec<usize> },
+        End { b: usize, ok: bool },
+        Release { i: usize, res: Res },
+        /// harness opened gate b (trace only)
+        Gate(usize),
+        /// outcome of a deliberate misuse (verif_c16_misuse)
+        Misuse { res: Res },
+    }
+
+    fn ev_str(e: &Ev) -> String {
+        match e {
+            Ev::Req(i) => format!("req({i})"),
+            Ev::Begin { b, state, items } => format!("batch_begin({b}, state={state}, items={items:?})"),
+            Ev::End { b, ok } => format!("batch_end({b}, {})", if *ok { "Ok" } else { "Err" }),
+            Ev::Release { i, res } => format!("release({i}, {})", res.class()),
+            Ev::Gate(b) => format!("gate_open({b})"),
+            Ev::Misuse { res } => format!("misuse -> {}", res.class()),
+        }
+    }
+
+    fn panic_class(msg: &str) -> String {
+        let mut s: String = msg.chars().map(|c| if c.is_ascii_digit() { '#' } else { c }).collect();
+        while s.contains("##") {
+            s = s.replace("##", "#");
+        }
+        s.truncate(70);
+        s
+    }
+
+    fn err_class(e: &Error) -> String {
+        let s = format!("{e:?}");
+        s.split(|c: char| !c.is_alphanumeric()).next().unwrap_or("").to_string()
+    }
+
+    struct Shared {
+        batcher: crate::sync::Mutex<Batcher<'static, TestBatch>>,
+        log: RefCell<Vec<Ev>>,
+        gates: RefCell<Vec<(bool, Option<Waker>)>>,
+        fail: u32,
+    }
+
+    impl Shared {
+        fn new(rpb: usize, total: TotalRecords, fail: u32) -> Rc<Self> {
+            Rc::new(Shared {
+                batcher: Batcher::new(rpb, total, Box::new(|index| TestBatch { index, items: Vec::new() })),
+                log: RefCell::new(Vec::new()),
+                gates: RefCell::new(Vec::new()),
+                fail,
+            })
+        }
+        fn lock(&self) -> crate::sync::MutexGuard<'_, Batcher<'static, TestBatch>> {
+            // a panic of the code under test inside the lock poisons it; the harness carries on
+            self.batcher.lock().unwrap_or_else(|e| e.into_inner())
+        }
+        fn log(&self, e: Ev) {
+            self.log.borrow_mut().push(e);
+        }
+        fn gate_is_open(&self, b: usize) -> bool {
+            self.gates.borrow().get(b).is_some_and(|g| g.0)
+        }
+        fn open_gate(&self, b: usize) {
+            let w = {
+                let mut g = self.gates.borrow_mut();
+                if g.len() <= b {
+                    g.resize(b + 1, (false, None));
+                }
+                if g[b].0 {
+                    return;
+                }
+                g[b].0 = true;
+                g[b].1.take()
+            };
+            self.log(Ev::Gate(b));
+            if let Some(w) = w {
+                w.wake();
+            }
+        }
+    }
+
+    struct GateFut {
+        sh: Rc<Shared>,
+        b: usize,
+    }
+    impl Future for GateFut {
+        type Output = ();
+        fn poll(self: Pin<&mut Self>, cx: &mut TaskContext<'_>) -> Poll<()> {
+            if self.b > 4096 || self.sh.gate_is_open(self.b) {
+                return Poll::Ready(());
+            }
+            let mut g = self.sh.gates.borrow_mut();
+            if g.len() <= self.b {
+                g.resize(self.b + 1, (false, None));
+            }
+            g[self.b].1 = Some(cx.waker().clone());
+            Poll::Pending
+        }
+    }
+
+    struct YieldOnce(bool);
+    impl Future for YieldOnce {
+        type Output = ();
+        fn poll(mut self: Pin<&mut Self>, cx: &mut TaskContext<'_>) -> Poll<()> {
+            if self.0 {
+                Poll::Ready(())
+            } else {
+                self.0 = true;
+                cx.waker().wake_by_ref();
+                Poll::Pending
+            }
+        }
+    }
+
+    type BoxFut = Pin<Box<dyn Future<Output = Result<(), Error>>>>;
+
+    /// The batch validation closure handed to `validate_record`: logs, waits for the gate, returns the
+    /// verdict the case prescribes for this batch.
+    fn closure(sh: Rc<Shared>) -> impl FnOnce(usize, TestBatch) -> BoxFut {
+        move |b, batch| {
+            Box::pin(async move {
+                sh.log(Ev::Begin { b, state: batch.index, items: batch.items.clone() });
+                GateFut { sh: Rc::clone(&sh), b }.await;
+                let ok = b >= 32 || sh.fail & (1 << b) == 0;
+                sh.log(Ev::End { b, ok });
+                if ok { Ok(()) } else { Err(Error::DZKPValidationFailed) }
+            })
+        }
+    }
+
+    async fn call_validate(sh: &Rc<Shared>, i: usize, push: bool, yield_once: bool) -> Res {
+        let fut = catch(|| {
+            let mut b = sh.lock();
+            if push {
+                // what the real users do before validating: record something in the batch
+                b.get_batch(RecordId::from(i)).batch.items.push(i);
+            }
+            b.validate_record(RecordId::from(i), closure(Rc::clone(sh)))
+        });
+        match fut {
+            Err(p) => Res::Panic(p),
+            Ok(f) => {
+                if yield_once {
+                    YieldOnce(false).await;
+                }
+                match catch_fut(f).await {
+                    Ok(Ok(())) => Res::Ok,
+                    Ok(Err(e)) => Res::Err(err_class(&e)),
+                    Err(p) => Res::Panic(p),
+                }
+            }
+        }
+    }
+
+    async fn record_task(sh: Rc<Shared>, i: usize, yield_once: bool) {
+        sh.log(Ev::Req(i));
+        let res = call_validate(&sh, i, true, yield_once).await;
+        sh.log(Ev::Release { i, res });
+    }
+
+    async fn misuse_task(sh: Rc<Shared>, i: usize) {
+        let res = call_validate(&sh, i, false, false).await;
+        sh.log(Ev::Misuse { res });
+    }
+
+    // -----------------------------------------------------------------------------------------
+    // reference model + offline rule checker
+    // -----------------------------------------------------------------------------------------
+
+    #[derive(Clone, Copy, Debug)]
+    struct Model {
+        rpb: usize,
+        total: usize,
+    }
+    impl Model {
+        fn nb(&self) -> usize {
+            self.total.div_ceil(self.rpb)
+        }
+        fn batch(&self, i: usize) -> usize {
+            i / self.rpb
+        }
+        fn members(&self, b: usize) -> std::ops::Range<usize> {
+            (b * self.rpb)..((b + 1) * self.rpb).min(self.total)
+        }
+        fn partial_last(&self, b: usize) -> bool {
+            b + 1 == self.nb() && self.members(b).len() < self.rpb
+        }
+    }
+
+    struct Finding {
+        rule: &'static str,
+        kind: &'static str,
+        detail: Value,
+    }
+
+    #[derive(Default)]
+    struct LogStats {
+        closures: u64,
+        rel_ok: u64,
+        rel_err: u64,
+        ooo_begin: bool,
+        ooo_end: bool,
+        partial_closed: bool,
+        err_classes: Vec<String>,
+    }
+
+    /// Pure function of the log and the model. `final_quiescent`: the log is complete (the system was
+    /// run until nothing was runnable with every gate open) => "exactly once" lower bounds apply.
+    fn check_log(md: Model, log: &[Ev], final_quiescent: bool) -> (Vec<Finding>, LogStats) {
+        let nb = md.nb();
+        let mut f = Vec::new();
+        let mut st = LogStats::default();
+        let mut req_t: Vec<Option<usize>> = vec![None; md.total];
+        let mut rel_t: Vec<Option<usize>> = vec![None; md.total];
+        let mut begin_n = vec![0usize; nb];
+        let mut end: Vec<Option<(usize, bool)>> = vec![None; nb];
+        let mut last_begin: Option<usize> = None;
+        let mut last_end: Option<usize> = None;
+        for (t, e) in log.iter().enumerate() {
+            match e {
+                Ev::Req(i) => {
+                    if *i < md.total {
+                        req_t[*i] = Some(t);
+                    }
+                }
+                Ev::Begin { b, state, items } => {
+                    st.closures += 1;
+                    if *b >= nb {
+                        f.push(Finding { rule: "R3", kind: "closure_for_nonexistent_batch", detail: json!({"batch": b, "t": t}) });
+                        continue;
+                    }
+                    begin_n[*b] += 1;
+                    if begin_n[*b] > 1 {
+                        f.push(Finding { rule: "R3", kind: "batch_validated_more_than_once", detail: json!({"batch": b, "t": t}) });
+                    }
+                    let missing: Vec<usize> = md.members(*b).filter(|j| req_t[*j].is_none()).collect();
+                    if !missing.is_empty() {
+                        let (rule, kind) = if md.partial_last(*b) {
+                            ("R4", "final_partial_batch_closed_before_declared_total")
+                        } else {
+                            ("R3", "closure_ran_for_incomplete_batch")
+                        };
+                        f.push(Finding { rule, kind, detail: json!({"batch": b, "not_yet_requested": missing, "t": t}) });
+                    }
+                    let mut it = items.clone();
+                    it.sort_unstable();
+                    if *state != *b || it != md.members(*b).collect::<Vec<_>>() {
+                        f.push(Finding {
+                            rule: "R3",
+                            kind: "closure_got_another_batchs_state",
+                            detail: json!({"batch": b, "state_index": state, "items": items, "t": t}),
+                        });
+                    }
+                    if last_begin.is_some_and(|p| p > *b) {
+                        st.ooo_begin = true;
+                    }
+                    last_begin = Some(*b);
+                    if md.partial_last(*b) && missing.is_empty() {
+                        st.partial_closed = true;
+                    }
+                }
+                Ev::End { b, ok } => {
+                    if *b < nb {
+                        end[*b] = Some((t, *ok));
+                        if last_end.is_some_and(|p| p > *b) {
+                            st.ooo_end = true;
+                        }
+                        last_end = Some(*b);
+                    }
+                }
+                Ev::Release { i, res } => {
+                    if *i >= md.total {
+                        continue;
+                    }
+                    rel_t[*i] = Some(t);
+                    let b = md.batch(*i);
+                    match res {
+                        Res::Ok => st.rel_ok += 1,
+                        Res::Err(c) => {
+                            st.rel_err += 1;
+                            if !st.err_classes.contains(c) {
+                                st.err_classes.push(c.clone());
+                            }
+                        }
+                        Res::Panic(p) => {
+                            f.push(Finding {
+                                rule: "R0",
+                                kind: "panic_on_legal_use",
+                                detail: json!({"record": i, "panic": panic_class(p), "t": t}),
+                            });
+                            continue;
+                        }
+                    }
+                    let missing: Vec<usize> = md.members(b).filter(|j| req_t[*j].is_none()).collect();
+                    if !missing.is_empty() {
+                        f.push(Finding {
+                            rule: "R1",
+                            kind: "released_before_whole_batch_requested",
+                            detail: json!({"record": i, "batch": b, "not_yet_requested": missing, "result": res.class(), "t": t}),
+                        });
+                    }
+                    match end[b] {
+                        None => f.push(Finding {
+                            rule: "R1",
+                            kind: "released_before_batch_check_finished",
+                            detail: json!({"record": i, "batch": b, "check_started": begin_n[b] > 0, "result": res.class(), "t": t}),
+                        }),
+                        Some((_, ok)) => {
+                            if ok != (*res == Res::Ok) {
+                                f.push(Finding {
+                                    rule: "R2",
+                                    kind: if ok { "err_although_batch_check_succeeded" } else { "ok_although_batch_check_failed" },
+                                    detail: json!({"record": i, "batch": b, "result": res.class(), "t": t}),
+                                });
+                            }
+                        }
+                    }
+                }
+                Ev::Gate(_) | Ev::Misuse { .. } => {}
+            }
+        }
+        if final_quiescent {
+            for b in 0..nb {
+                let complete = md.members(b).all(|j| req_t[j].is_some());
+                if complete && begin_n[b] == 0 {
+                    let (rule, kind) = if md.partial_last(b) {
+                        ("R4", "final_partial_batch_never_closed")
+                    } else {
+                        ("R3", "complete_batch_never_validated")
+                    };
+                    f.push(Finding { rule, kind, detail: json!({"batch": b}) });
+                }
+            }
+        }
+        (f, st)
+    }
+
+    // -----------------------------------------------------------------------------------------
+    // simulation of one history on the manual scheduler
+    // -----------------------------------------------------------------------------------------
+
+    const MODES: [&str; 4] = ["sequential", "concurrent", "interleaved", "hold_last"];
+    const PICKS: [&str; 3] = ["fifo", "lifo", "seeded"];
+
+    #[derive(Clone, Debug)]
+    struct Case {
+        n: usize,
+        rpb: usize,
+        perm: Vec<usize>,
+        fail: u32,
+        gate_order: Vec<usize>,
+        gate_variant: usize,
+        mode: usize,
+        pick: usize,
+        yield_once: bool,
+        late_total: bool,
+        walk_seed: u64,
+        rep: usize,
+    }
+
+    impl Case {
+        fn json(&self, idx: usize) -> Value {
+            json!({"case": idx, "tier": tier_name(), "total": self.n, "records_per_batch": self.rpb, "arrival": self.perm,
+                   "fail_mask": self.fail, "gate_order": self.gate_order, "mode": MODES[self.mode],
+                   "pick": PICKS[self.pick], "yield_between_call_and_first_poll": self.yield_once,
+                   "total_set_late": self.late_total, "walk_seed": self.walk_seed})
+        }
+    }
+
+    struct Sim<'a> {
+        md: Model,
+        sh: Rc<Shared>,
+        m: Manual<'a, ()>,
+        rng: VRng,
+        pick: usize,
+        yield_once: bool,
+        r6: Vec<Finding>,
+        overrun: bool,
+    }
+
+    impl<'a> Sim<'a> {
+        fn new(md: Model, fail: u32, late_total: bool, pick: usize, yield_once: bool, walk_seed: u64) -> Self {
+            let sh = if late_total {
+                let sh = Shared::new(md.rpb, TotalRecords::Unspecified, fail);
+                sh.lock().set_total_records(TotalRecords::specified(md.total).unwrap());
+                sh
+            } else {
+                Shared::new(md.rpb, TotalRecords::specified(md.total).unwrap(), fail)
+            };
+            Sim { md, sh, m: Manual::new(), rng: VRng::new(walk_seed, 0xC16), pick, yield_once, r6: Vec::new(), overrun: false }
+        }
+        /// `validate_record(rec)` is called: spawn the task and give it its first poll.
+        fn arrive(&mut self, rec: usize) {
+            let id = self.m.spawn(record_task(Rc::clone(&self.sh), rec, self.yield_once));
+            self.m.poll_task(id);
+        }
+        fn ready(&self) -> Vec<usize> {
+            self.m.ready_ids().into_iter().filter(|id| !self.m.is_done(*id)).collect()
+        }
+        fn poll_one(&mut self) -> bool {
+            let r = self.ready();
+            if r.is_empty() {
+                return false;
+            }
+            if self.m.polls > 20_000 {
+                self.overrun = true;
+                return false;
+            }
+            let id = match self.pick {
+                0 => r[0],
+                1 => r[r.len() - 1],
+                _ => r[self.rng.below(r.len() as u64) as usize],
+            };
+            self.m.poll_task(id);
+            true
+        }
+        fn run_quiescent(&mut self) {
+            while self.poll_one() {}
+            self.quiescent_check();
+        }
+        fn open_gate(&mut self, b: usize) {
+            self.sh.open_gate(b);
+        }
+        /// R6: nothing is runnable now. Every batch whose records have all been requested and whose
+        /// gate is open must have released all of its records.
+        fn quiescent_check(&mut self) {
+            if !self.ready().is_empty() {
+                return;
+            }
+            let log = self.sh.log.borrow();
+            let mut req = vec![false; self.md.total];
+            let mut rel = vec![false; self.md.total];
+            let mut begun = vec![false; self.md.nb()];
+            let mut ended = vec![false; self.md.nb()];
+            for e in log.iter() {
+                match e {
+                    Ev::Req(i) if *i < self.md.total => req[*i] = true,
+                    Ev::Release { i, .. } if *i < self.md.total => rel[*i] = true,
+                    Ev::Begin { b, .. } if *b < self.md.nb() => begun[*b] = true,
+                    Ev::End { b, .. } if *b < self.md.nb() => ended[*b] = true,
+                    _ => {}
+                }
+            }
+            for b in 0..self.md.nb() {
+                if self.md.members(b).all(|j| req[j]) && self.sh.gate_is_open(b) {
+                    let stuck: Vec<usize> = self.md.members(b).filter(|j| !rel[*j]).collect();
+                    if !stuck.is_empty() && !self.r6.iter().any(|x| x.detail["batch"] == json!(b)) {
+                        self.r6.push(Finding {
+                            rule: "R6",
+                            kind: "quiescent_but_records_not_released",
+                            detail: json!({"batch": b, "stuck_records": stuck, "check_started": begun[b], "check_finished": ended[b],
+                                           "partial_last": self.md.partial_last(b), "t": log.len()}),
+                        });
+                    }
+                }
+            }
+        }
+        fn finalize(&mut self, gate_order: &[usize]) {
+            for g in gate_order {
+                self.open_gate(*g);
+            }
+            self.run_quiescent();
+        }
+    }
+
+    fn run_case(c: &Case) -> (Vec<Ev>, Vec<Finding>, Vec<usize>, bool) {
+        let md = Model { rpb: c.rpb, total: c.n };
+        let mut s = Sim::new(md, c.fail, c.late_total, c.pick, c.yield_once, c.walk_seed);
+        match c.mode {
+            0 => {
+                // sequential: after each call drive everything that can make progress, opening the gate of a
+                // batch as soon as its check starts (the caller "awaits" as far as that is possible)
+                for rec in &c.perm {
+                    s.arrive(*rec);
+                    loop {
+                        let begun: Vec<usize> = s
+                            .sh
+                            .log
+                            .borrow()
+                            .iter()
+                            .filter_map(|e| if let Ev::Begin { b, .. } = e { Some(*b) } else { None })
+                            .collect();
+                        for b in begun {
+                            s.open_gate(b);
+                        }
+                        if !s.poll_one() {
+                            break;
+                        }
+                    }
+                    s.quiescent_check();
+                }
+            }
+            1 => {
+                // concurrent: every record is requested before any batch check may finish; then the checks are
+                // completed in the prescribed (possibly reversed / seeded) order
+                for rec in &c.perm {
+                    s.arrive(*rec);
+                }
+                for g in &c.gate_order {
+                    s.open_gate(*g);
+                    s.run_quiescent();
+                }
+            }
+            2 => {
+                // interleaved: seeded walk over {next arrival, poll a woken task, open the next gate}
+                let mut arrivals = c.perm.iter();
+                let mut gates = c.gate_order.iter();
+                let (mut na, mut ng) = (c.perm.len(), c.gate_order.len());
+                loop {
+                    let can_poll = !s.ready().is_empty();
+                    let mut acts = Vec::with_capacity(3);
+                    if na > 0 {
+                        acts.push(0);
+                    }
+                    if ng > 0 {
+                        acts.push(1);
+                    }
+                    if can_poll {
+                        acts.push(2);
+                        acts.push(2);
+                    }
+                    if acts.is_empty() {
+                        break;
+                    }
+                    match acts[s.rng.below(acts.len() as u64) as usize] {
+                        0 => {
+                            s.arrive(*arrivals.next().unwrap());
+                            na -= 1;
+                        }
+                        1 => {
+                            let g = *gates.next().unwrap();
+                            s.open_gate(g);
+                            ng -= 1;
+                        }
+                        _ => {
+                            if !s.poll_one() {
+                                break;
+                            }
+                        }
+                    }
+                    s.quiescent_check();
+                }
+            }
+            _ => {
+                // hold_last: the last arrival is withheld until everything else is quiescent with all gates open
+                let (last, first) = c.perm.split_last().unwrap();
+                for rec in first {
+                    s.arrive(*rec);
+                }
+                for g in &c.gate_order {
+                    s.open_gate(*g);
+                    s.run_quiescent();
+                }
+                s.arrive(*last);
+                s.run_quiescent();
+            }
+        }
+        s.finalize(&c.gate_order);
+        let log = s.sh.log.borrow().clone();
+        let trace = s.m.trace.clone();
+        (log, std::mem::take(&mut s.r6), trace, s.overrun)
+    }
+
+    // -----------------------------------------------------------------------------------------
+    // enumeration helpers
+    // -----------------------------------------------------------------------------------------
+
+    fn next_permutation(p: &mut [usize]) -> bool {
+        if p.len() < 2 {
+            return false;
+        }
+        let mut i = p.len() - 1;
+        while i > 0 && p[i - 1] >= p[i] {
+            i -= 1;
+        }
+        if i == 0 {
+            return false;
+        }
+        let mut j = p.len() - 1;
+        while p[j] <= p[i - 1] {
+            j -= 1;
+        }
+        p.swap(i - 1, j);
+        p[i..].reverse();
+        true
+    }
+
+    /// every subset of batches for up to three batches; otherwise none, all and two seeded proper subsets
+    fn fail_sets(nb: usize, r: &mut VRng) -> Vec<u32> {
+        let all = (1u32 << nb) - 1;
+        if nb <= 3 {
+            return (0..=all).collect();
+        }
+        let mut v = vec![0, all];
+        while v.len() < 4 {
+            let m = (r.next() as u32) & all;
+            if !v.contains(&m) {
+                v.push(m);
+            }
+        }
+        v
+    }
+
+    fn gate_orders(nb: usize, r: &mut VRng) -> Vec<Vec<usize>> {
+        let fwd: Vec<usize> = (0..nb).collect();
+        let mut out = vec![fwd.clone()];
+        if nb >= 2 {
+            out.push(fwd.iter().rev().copied().collect());
+        }
+        if nb >= 3 {
+            let mut s = fwd.clone();
+            loop {
+                r.shuffle(&mut s);
+                if !out.contains(&s) {
+                    break;
+                }
+            }
+            out.push(s);
+        }
+        out
+    }
+
+    /// case indices depend on the tier: replay with the same `--tier` (and `--seed`)
+    fn tier_name() -> &'static str {
+        if vlib::env().thorough { "thorough" } else { "quick" }
+    }
+
+    fn replay_case() -> Option<usize> {
+        let p = vlib::env().replay?;
+        let w: Value = serde_json::from_str(&std::fs::read_to_string(p).ok()?).ok()?;
+        w["witness"]["case"].as_u64().map(|v| v as usize)
+    }
+
+    fn report(rec: &mut Recorder, what_prefix: &str, f: &Finding, case: &Value, log: &[Ev], trace: &[usize]) {
+        let what = format!("{what_prefix}{} {}", f.rule, f.kind.replace('_', " "));
+        let mut sig = json!({"rule": f.rule, "kind": f.kind, "mode": case["mode"]});
+        for k in ["partial_last", "check_started", "check_finished", "panic"] {
+            if !f.detail[k].is_null() {
+                sig[k] = f.detail[k].clone();
+            }
+        }
+        let mut w = case.clone();
+        w["finding"] = f.detail.clone();
+        w["log"] = json!(log.iter().map(ev_str).collect::<Vec<_>>());
+        w["poll_trace_task_ids"] = json!(trace);
+        rec.violation(&what, sig, w);
+    }
+
+    // -----------------------------------------------------------------------------------------
+    // test 1: exhaustive arrival orders on the bare Batcher
+    // -----------------------------------------------------------------------------------------
+
+    #[test]
+    fn verif_c16_orders() {
+        let env = vlib::env();
+        let mut rec = Recorder::new("C16", "verif_c16_orders");
+        let only = replay_case();
+        let max_n = env.pick(6, 7);
+        let walk_reps = 2;
+        let mut idx = 0usize;
+        for n in 1..=max_n {
+            for rpb in 1..=4usize {
+                let md = Model { rpb, total: n };
+                let nb = md.nb();
+                let mut perm: Vec<usize> = (0..n).collect();
+                let mut perm_no = 0usize;
+                loop {
+                    // the variants below are a deterministic function of (seed, n, rpb, perm_no)
+                    let mut vr = VRng::new(env.seed ^ 0xC16_0001, ((n * 8 + rpb) * 6000 + perm_no) as u64);
+                    let fails = fail_sets(nb, &mut vr);
+                    let gos = gate_orders(nb, &mut vr);
+                    for fail in &fails {
+                        for (gv, go) in gos.iter().enumerate() {
+                            for mode in 0..4usize {
+                                if mode == 0 && gv != 0 {
+                                    continue; // sequential mode ignores the gate order
+                                }
+                                let reps = if mode == 2 { walk_reps } else { 1 };
+                                for rep in 0..reps {
+                                    let my_idx = idx;
+                                    idx += 1;
+                                    if !env.mine(my_idx) || only.is_some_and(|c| c != my_idx) {
+                                        continue;
+                                    }
+                                    let mut cr = VRng::new(env.seed ^ 0xC16_0002, my_idx as u64);
+                                    let case = Case {
+                                        n,
+                                        rpb,
+                                        perm: perm.clone(),
+                                        fail: *fail,
+                                        gate_order: go.clone(),
+                                        gate_variant: gv,
+                                        mode,
+                                        pick: cr.below(3) as usize,
+                                        yield_once: cr.bool(),
+                                        late_total: cr.below(4) == 0,
+                                        walk_seed: cr.next() ^ rep as u64,
+                                        rep,
+                                    };
+                                    one_history(&mut rec, &case, my_idx);
+                                }
+                            }
+                        }
+                    }
+                    perm_no += 1;
+                    if !next_permutation(&mut perm) {
+                        break;
+                    }
+                }
+            }
+        }
+        rec.finish();
+    }
+
+    fn one_history(rec: &mut Recorder, case: &Case, idx: usize) {
+        let md = Model { rpb: case.rpb, total: case.n };
+        let (log, r6, trace, overrun) = run_case(case);
+        rec.eval();
+        if overrun {
+            rec.inconclusive(format!("case {idx}: more than 20000 polls, history abandoned"));
+            return;
+        }
+        let (mut findings, st) = check_log(md, &log, true);
+        findings.extend(r6);
+        rec.count("histories");
+        rec.add("events", log.len() as u64);
+        rec.add("closure_invocations", st.closures);
+        rec.add("releases_ok", st.rel_ok);
+        rec.add("releases_err", st.rel_err);
+        if st.ooo_begin {
+            rec.count("histories_with_out_of_order_batch_start");
+        }
+        if st.ooo_end {
+            rec.count("histories_with_out_of_order_batch_completion");
+        }
+        if st.partial_closed {
+            rec.count("partial_last_batch_closed");
+        }
+        for c in &st.err_classes {
+            rec.seen("release_error_classes", c.clone());
+        }
+        rec.seen("shapes", format!("total={} per_batch={}", case.n, case.rpb));
+        rec.seen("modes", format!("{}/{}", MODES[case.mode], PICKS[case.pick]));
+        if findings.is_empty() {
+            if st.closures > 0 && st.rel_ok + st.rel_err > 0 {
+                rec.distinct(&(case.n, case.rpb, &case.perm, case.fail, case.gate_variant, case.mode, case.pick,
+                               case.yield_once, case.late_total, case.rep));
+            }
+        } else {
+            let cj = case.json(idx);
+            // one witness per rule and history
+            let mut seen: Vec<(&str, &str)> = Vec::new();
+            for f in &findings {
+                if seen.contains(&(f.rule, f.kind)) {
+                    continue;
+                }
+                seen.push((f.rule, f.kind));
+                report(rec, "batched validation: ", f, &cj, &log, &trace);
+            }
+        }
+        if rec.want_sample() && idx % 977 == 5 {
+            let mut s = case.json(idx);
+            s["log"] = json!(log.iter().map(ev_str).collect::<Vec<_>>());
+            rec.sample(s);
+        }
+    }
+
+    // -----------------------------------------------------------------------------------------
+    // test 2: misuse must be loud (R5)
+    // -----------------------------------------------------------------------------------------
+
+    #[derive(Clone, Copy, Debug, PartialEq)]
+    enum Misuse {
+        DupPending,
+        DupInProgress,
+        DupValidated,
+        Beyond,
+        TouchValidated,
+    }
+    impl Misuse {
+        fn name(self) -> &'static str {
+            match self {
+                Misuse::DupPending => "same_record_twice_batch_pending",
+                Misuse::DupInProgress => "same_record_twice_batch_check_running",
+                Misuse::DupValidated => "same_record_twice_batch_validated",
+                Misuse::Beyond => "record_at_or_beyond_total",
+                Misuse::TouchValidated => "get_batch_of_validated_batch",
+            }
+        }
+    }
+
+    /// Replays the legal prefix `perm[..k]`; `drive`: every batch check that starts is completed at once.
+    fn misuse_prefix<'a>(md: Model, perm: &[usize], k: usize, drive: bool, fail: u32, seed: u64) -> Sim<'a> {
+        let mut s = Sim::new(md, fail, false, (seed % 3) as usize, false, seed);
+        for rec in &perm[..k] {
+            s.arrive(*rec);
+            if drive {
+                loop {
+                    let begun: Vec<usize> = s
+                        .sh
+                        .log
+                        .borrow()
+                        .iter()
+                        .filter_map(|e| if let Ev::Begin { b, .. } = e { Some(*b) } else { None })
+                        .collect();
+                    for b in begun {
+                        s.open_gate(b);
+                    }
+                    if !s.poll_one() {
+                        break;
+                    }
+                }
+            }
+        }
+        s
+    }
+
+    /// State of the reference model after a prefix: per batch (requested records, check begun, check ended).
+    fn model_state(md: Model, log: &[Ev]) -> (Vec<bool>, Vec<bool>, Vec<bool>) {
+        let mut req = vec![false; md.total];
+        let mut begun = vec![false; md.nb()];
+        let mut ended = vec![false; md.nb()];
+        for e in log {
+            match e {
+                Ev::Req(i) if *i < md.total => req[*i] = true,
+                Ev::Begin { b, .. } if *b < md.nb() => begun[*b] = true,
+                Ev::End { b, .. } if *b < md.nb() => ended[*b] = true,
+                _ => {}
+            }
+        }
+        (req, begun, ended)
+    }
+
+    #[test]
+    fn verif_c16_misuse() {
+        let env = vlib::env();
+        let mut rec = Recorder::new("C16", "verif_c16_misuse");
+        let only = replay_case();
+        let max_n = env.pick(5, 7);
+        let n_perms = env.pick(3, 6);
+        let mut idx = 0usize;
+        for n in 1..=max_n {
+            for rpb in 1..=4usize {
+                let md = Model { rpb, total: n };
+                for pv in 0..n_perms {
+                    let mut pr = VRng::new(env.seed ^ 0xC16_0003, ((n * 8 + rpb) * 16 + pv) as u64);
+                    let mut perm: Vec<usize> = (0..n).collect();
+                    match pv {
+                        0 => {}
+                        1 => perm.reverse(),
+                        _ => pr.shuffle(&mut perm),
+                    }
+                    let fail = if pv % 2 == 0 { 0 } else { (pr.next() as u32) & ((1 << md.nb()) - 1) };
+                    for k in 0..=n {
+                        for drive in [true, false] {
+                            // reference-model state after the prefix (taken from the log of a dry run)
+                            let (req, begun, ended) = {
+                                let s = misuse_prefix(md, &perm, k, drive, fail, pr.0);
+                                let log = s.sh.log.borrow().clone();
+                                model_state(md, &log)
+                            };
+                            let mut targets: Vec<(Misuse, usize)> = Vec::new();
+                            for i in 0..(md.nb() * rpb + rpb + 2) {
+                                if i >= n {
+                                    targets.push((Misuse::Beyond, i));
+                                } else if req[i] {
+                                    let b = md.batch(i);
+                                    targets.push((
+                                        if ended[b] {
+                                            Misuse::DupValidated
+                                        } else if begun[b] {
+                                            Misuse::DupInProgress
+                                        } else {
+                                            Misuse::DupPending
+                                        },
+                                        i,
+                                    ));
+                                }
+                                if i < n && ended[md.batch(i)] {
+                                    targets.push((Misuse::TouchValidated, i));
+                                }
+                            }
+                            for (kind, i) in targets {
+                                let my_idx = idx;
+                                idx += 1;
+                                if !env.mine(my_idx) || only.is_some_and(|c| c != my_idx) {
+                                    continue;
+                                }
+                                let case = json!({"case": my_idx, "tier": tier_name(), "total": n, "records_per_batch": rpb, "arrival": perm,
+                                                  "legal_prefix_len": k, "checks_completed_eagerly": drive, "fail_mask": fail,
+                                                  "misuse": kind.name(), "misused_record": i});
+                                one_misuse(&mut rec, md, &perm, k, drive, fail, pr.0, kind, i, &case);
+                            }
+                        }
+                    }
+                }
+            }
+        }
+        // missing total records
+        for rpb in 1..=4usize {
+            for i in 0..6usize {
+                for (tv, total) in [TotalRecords::Unspecified, TotalRecords::Indeterminate].into_iter().enumerate() {
+                    let my_idx = idx;
+                    idx += 1;
+                    if !env.mine(my_idx) || only.is_some_and(|c| c != my_idx) {
+                        continue;
+                    }
+                    let sh = Shared::new(rpb, total, 0);
+                    sh.open_gate(i / rpb);
+                    let mut m: Manual<'_, ()> = Manual::new();
+                    let id = m.spawn(misuse_task(Rc::clone(&sh), i));
+                    m.poll_task(id);
+                    // complete the rest of that batch as far as possible, then see what became of the call
+                    for j in (i / rpb * rpb)..((i / rpb + 1) * rpb) {
+                        if j != i {
+                            let id = m.spawn(misuse_task(Rc::clone(&sh), j));
+                            m.poll_task(id);
+                        }
+                    }
+                    m.run(&mut |_| 0, 1000);
+                    let first = sh.log.borrow().iter().find_map(|e| if let Ev::Misuse { res } = e { Some(res.clone()) } else { None });
+                    let all: Vec<Res> = sh.log.borrow().iter().filter_map(|e| if let Ev::Misuse { res } = e { Some(res.clone()) } else { None }).collect();
+                    rec.eval();
+                    let case = json!({"case": my_idx, "records_per_batch": rpb, "record": i,
+                                      "total_records": if tv == 0 { "Unspecified" } else { "Indeterminate" }});
+                    if tv == 1 {
+                        // not "missing": observation only
+                        rec.seen("indeterminate_total_outcomes", first.map_or("pending".into(), |r| r.class()));
+                        continue;
+                    }
+                    let accepted = all.iter().any(|r| *r == Res::Ok) || all.len() < rpb;
+                    if accepted {
+                        rec.violation(
+                            "batched validation: R5 validate_record without total records was not rejected",
+                            json!({"rule": "R5", "kind": "missing_total_records",
+                                   "outcome": if all.iter().any(|r| *r == Res::Ok) { "ok" } else { "never_resolved" }}),
+                            json!({"case": case, "log": sh.log.borrow().iter().map(ev_str).collect::<Vec<_>>()}),
+                        );
+                    } else {
+                        rec.count("misuse_rejected_loudly");
+                        rec.seen("misuse_kinds_rejected", "missing_total_records");
+                        rec.seen("misuse_rejections", format!("missing_total_records -> {}", all[0].class()));
+                        rec.distinct(&("missing_total", rpb, i));
+                    }
+                }
+            }
+        }
+        rec.finish();
+    }
+
+    #[allow(clippy::too_many_arguments)]
+    fn one_misuse(rec: &mut Recorder, md: Model, perm: &[usize], k: usize, drive: bool, fail: u32, seed: u64, kind: Misuse, i: usize, case: &Value) {
+        let mut s = misuse_prefix(md, perm, k, drive, fail, seed);
+        rec.eval();
+        let outcome: Option<Res> = if kind == Misuse::TouchValidated {
+            let sh = Rc::clone(&s.sh);
+            Some(match catch(|| {
+                sh.lock().get_batch(RecordId::from(i));
+            }) {
+                Ok(()) => Res::Ok,
+                Err(p) => Res::Panic(p),
+            })
+        } else {
+            let id = s.m.spawn(misuse_task(Rc::clone(&s.sh), i));
+            s.m.poll_task(id);
+            // whatever was decided at the call is final; otherwise finish the legal history and look again
+            let find = |s: &Sim| s.sh.log.borrow().iter().find_map(|e| if let Ev::Misuse { res } = e { Some(res.clone()) } else { None });
+            let mut r = find(&s);
+            if r.is_none() {
+                for recd in &perm[k..] {
+                    s.arrive(*recd);
+                }
+                let mut gates: Vec<usize> = (0..md.nb() + 1).collect();
+                gates.push(i / md.rpb);
+                for g in gates {
+                    s.open_gate(g);
+                }
+                while s.poll_one() {}
+                r = find(&s);
+                rec.count("misuse_decided_only_after_continuation");
+            }
+            r
+        };
+        let log: Vec<String> = s.sh.log.borrow().iter().map(ev_str).collect();
+        match outcome {
+            Some(Res::Err(_) | Res::Panic(_)) => {
+                let r = outcome.unwrap();
+                rec.count("misuse_rejected_loudly");
+                rec.seen("misuse_kinds_rejected", kind.name());
+                rec.seen("misuse_rejections", format!("{} -> {}", kind.name(), r.class()));
+                rec.distinct(&(kind.name(), md.total, md.rpb, perm, k, drive, i));
+                if rec.want_sample() && i % 5 == 1 && k > 1 {
+                    let mut c = case.clone();
+                    c["outcome"] = json!(r.class());
+                    rec.sample(c);
+                }
+            }
+            other => {
+                let out = if other.is_some() { "ok" } else { "never_resolved" };
+                let mut w = case.clone();
+                w["log"] = json!(log);
+                rec.violation(
+                    &format!("batched validation: R5 misuse silently accepted ({})", kind.name().replace('_', " ")),
+                    json!({"rule": "R5", "kind": kind.name(), "outcome": out}),
+                    w,
+                );
+            }
+        }
+    }
+
+    // -----------------------------------------------------------------------------------------
+    // tests 3/4: the real users (DZKP validator with real proofs, MAC validator) on the paused-clock runtime
+    // -----------------------------------------------------------------------------------------
+
+    use std::{sync::Arc, time::Duration};
+
+    use crate::{
+        ff::{Field, Fp32BitPrime, U128Conversions, boolean::Boolean},
+        helpers::{GatewayConfig, Role},
+        protocol::{
+            basics::SecureMul,
+            context::{
+                Context, DZKPContext, MaliciousContext, TEST_DZKP_STEPS, UpgradableContext, UpgradedContext,
+                dzkp_validator::DZKPValidator, upgrade::Upgradable, validator::Validator,
+            },
+        },
+        secret_sharing::replicated::{ReplicatedSecretSharing, semi_honest::AdditiveShare as Replicated},
+        seq_join::SeqJoin,
+        sharding::NotSharded,
+        test_fixture::{Reconstruct, Runner, TestWorld, TestWorldConfig},
+    };
+
+    /// (helper, is_release, record, ok) in the order in which things happened (one clock for the world)
+    type RLog = Arc<std::sync::Mutex<Vec<(usize, bool, usize, bool)>>>;
+
+    fn rlog_push(l: &RLog, e: (usize, bool, usize, bool)) {
+        l.lock().unwrap_or_else(|e| e.into_inner()).push(e);
+    }
+
+    /// Joins record futures like `seq_join` would admit them (record k may start only while k < first
+    /// incomplete record + window) but polls the admitted ones in a seeded order on every wake-up, so
+    /// that `validate_record` calls reach the batcher in many different orders.
+    struct SeededJoin<'a, T> {
+        futs: Vec<Option<Pin<Box<dyn Future<Output = T> + Send + 'a>>>>,
+        out: Vec<Option<T>>,
+        window: usize,
+        head: usize,
+        rng: VRng,
+    }
+    impl<'a, T> SeededJoin<'a, T> {
+        fn new(futs: Vec<Pin<Box<dyn Future<Output = T> + Send + 'a>>>, window: usize, rng: VRng) -> Self {
+            let n = futs.len();
+            SeededJoin { futs: futs.into_iter().map(Some).collect(), out: (0..n).map(|_| None).collect(), window: window.max(1), head: 0, rng }
+        }
+    }
+    impl<T: Unpin> Future for SeededJoin<'_, T> {
+        type Output = Vec<T>;
+        fn poll(self: Pin<&mut Self>, cx: &mut TaskContext<'_>) -> Poll<Vec<T>> {
+            let this = self.get_mut();
+            let n = this.futs.len();
+            loop {
+                let hi = (this.head + this.window).min(n);
+                let mut ids: Vec<usize> = (this.head..hi).filter(|i| this.futs[*i].is_some()).collect();
+                this.rng.shuffle(&mut ids);
+                let mut progressed = false;
+                for i in ids {
+                    if let Poll::Ready(v) = this.futs[i].as_mut().unwrap().as_mut().poll(cx) {
+                        this.out[i] = Some(v);
+                        this.futs[i] = None;
+                        progressed = true;
+                    }
+                }
+                while this.head < n && this.futs[this.head].is_none() {
+                    this.head += 1;
+                }
+                if this.head == n {
+                    return Poll::Ready(this.out.iter_mut().map(|o| o.take().unwrap()).collect());
+                }
+                if !progressed {
+                    return Poll::Pending;
+                }
+            }
+        }
+    }
+
+    /// Dropping a half-finished world can panic in the code under test (validator drop checks); that must
+    /// not take the harness down.
+    struct QuietDrop<F>(Option<F>);
+    impl<F: Future + Unpin> Future for QuietDrop<F> {
+        type Output = F::Output;
+        fn poll(mut self: Pin<&mut Self>, cx: &mut TaskContext<'_>) -> Poll<F::Output> {
+            Pin::new(self.0.as_mut().unwrap()).poll(cx)
+        }
+    }
+    impl<F> Drop for QuietDrop<F> {
+        fn drop(&mut self) {
+            let f = self.0.take();
+            let _ = catch(move || drop(f));
+        }
+    }
+
+    #[derive(Clone, Debug)]
+    struct RealCase {
+        user: &'static str,
+        count: usize,
+        rpb: usize,
+        all_at_once: bool,
+        total_on_ctx: bool,
+        /// (helper index, record) whose input share is spoiled by that helper (MAC only)
+        tamper: Option<(usize, usize)>,
+        /// a seeded virtual-time pause between the multiplication and `validate_record`, per helper and record:
+        /// with the paused clock this *is* the order in which the requests reach the batcher
+        delays: bool,
+        seed: u64,
+    }
+    impl RealCase {
+        fn json(&self, idx: usize) -> Value {
+            json!({"case": idx, "tier": tier_name(), "user": self.user, "total": self.count, "records_per_batch": self.rpb,
+                   "all_records_started_at_once": self.all_at_once, "total_set_on_context_before_validator": self.total_on_ctx,
+                   "tamper_helper_record": self.tamper, "seeded_request_order": self.delays, "world_and_poll_seed": self.seed})
+        }
+    }
+
+    type RecordResults = Vec<Result<(), String>>;
+
+    fn pause_of(c: &RealCase, role: usize, i: usize) -> Option<Duration> {
+        c.delays.then(|| Duration::from_millis(VRng::new(c.seed ^ 0x55, (role * 4096 + i) as u64).below(2 * c.count as u64 + 1)))
+    }
+
+    async fn dzkp_helper(ctx: MaliciousContext<'_>, shares: Vec<Replicated<Boolean>>, c: RealCase, log: RLog) -> Vec<Result<Replicated<Boolean>, String>> {
+        let role = ctx.role() as usize;
+        let count = c.count;
+        let (v, m_ctx) = if c.total_on_ctx {
+            let v = ctx.set_total_records(count).dzkp_validator(TEST_DZKP_STEPS, c.rpb);
+            let m = v.context();
+            (v, m)
+        } else {
+            let mut v = ctx.dzkp_validator(TEST_DZKP_STEPS, c.rpb);
+            v.set_total_records(TotalRecords::specified(count).unwrap());
+            let m = v.context().set_total_records(count);
+            (v, m)
+        };
+        let window = if c.all_at_once { count } else { m_ctx.active_work().get() };
+        let shares = &shares;
+        let futs: Vec<Pin<Box<dyn Future<Output = Result<Replicated<Boolean>, String>> + Send + '_>>> = (0..count)
+            .map(|i| {
+                let cx = m_ctx.clone();
+                let log = Arc::clone(&log);
+                let pause = pause_of(&c, role, i);
+                let f: Pin<Box<dyn Future<Output = Result<Replicated<Boolean>, String>> + Send + '_>> = Box::pin(async move {
+                    let rid = RecordId::from(i);
+                    let prod = shares[i].multiply(&shares[i + 1], cx.clone(), rid).await.map_err(|e| format!("multiply:{}", err_class(&e)))?;
+                    if let Some(d) = pause {
+                        tokio::time::sleep(d).await;
+                    }
+                    rlog_push(&log, (role, false, i, true));
+                    let r = cx.validate_record(rid).await;
+                    rlog_push(&log, (role, true, i, r.is_ok()));
+                    r.map_err(|e| err_class(&e))?;
+                    Ok(prod)
+                });
+                f
+            })
+            .collect();
+        let out = SeededJoin::new(futs, window, VRng::new(c.seed ^ 0x77, role as u64)).await;
+        drop(v);
+        out
+    }
+
+    async fn mac_helper(ctx: MaliciousContext<'_>, shares: Vec<Replicated<Fp32BitPrime>>, c: RealCase, log: RLog) -> RecordResults {
+        let role = ctx.role() as usize;
+        let count = c.count;
+        let v = ctx.set_total_records(count).validator::<Fp32BitPrime>();
+        let m_ctx = v.context();
+        let window = if c.all_at_once { count } else { m_ctx.active_work().get() };
+        let shares = &shares;
+        let futs: Vec<Pin<Box<dyn Future<Output = Result<(), String>> + Send + '_>>> = (0..count)
+            .map(|i| {
+                let cx = m_ctx.clone();
+                let log = Arc::clone(&log);
+                let mut a = shares[i].clone();
+                let b = shares[i + 1].clone();
+                let pause = pause_of(&c, role, i);
+                if c.tamper == Some((role, i)) {
+                    a = Replicated::new(a.left(), a.right() + Fp32BitPrime::ONE);
+                }
+                let f: Pin<Box<dyn Future<Output = Result<(), String>> + Send + '_>> = Box::pin(async move {
+                    let rid = RecordId::from(i);
+                    let (am, bm) = (a, b).upgrade(cx.clone(), rid).await.map_err(|e| format!("upgrade:{}", err_class(&e)))?;
+                    let _p = am.multiply(&bm, cx.clone(), rid).await.map_err(|e| format!("multiply:{}", err_class(&e)))?;
+                    if let Some(d) = pause {
+                        tokio::time::sleep(d).await;
+                    }
+                    rlog_push(&log, (role, false, i, true));
+                    let r = cx.validate_record(rid).await;
+                    rlog_push(&log, (role, true, i, r.is_ok()));
+                    r.map_err(|e| err_class(&e))
+                });
+                f
+            })
+            .collect();
+        let out = SeededJoin::new(futs, window, VRng::new(c.seed ^ 0x99, role as u64)).await;
+        drop(v);
+        out
+    }
+
+    enum RealOutcome {
+        Stalled,
+        Panic(String),
+        /// per helper, per record + "values reconstruct to the expected products"
+        Done([RecordResults; 3], bool),
+    }
+
+    fn run_real(c: &RealCase) -> (RealOutcome, Vec<(usize, bool, usize, bool)>) {
+        let log: RLog = Arc::new(std::sync::Mutex::new(Vec::new()));
+        let l2 = Arc::clone(&log);
+        let c2 = c.clone();
+        let fut = async move {
+            let c = c2;
+            let mut config = TestWorldConfig { seed: c.seed, ..Default::default() }.with_no_timeout();
+            let mut r = VRng::new(c.seed, 0xDA7A);
+            if c.user == "dzkp" {
+                let world = TestWorld::<NotSharded>::with_config(&config);
+                let xs: Vec<Boolean> = (0..=c.count).map(|_| Boolean::from(r.bool())).collect();
+                let res: [Vec<Result<Replicated<Boolean>, String>>; 3] = world
+                    .malicious(xs.clone().into_iter(), |ctx, shares: Vec<Replicated<Boolean>>| dzkp_helper(ctx, shares, c.clone(), Arc::clone(&l2)))
+                    .await;
+                let mut values_ok = true;
+                for i in 0..c.count {
+                    if let (Ok(a), Ok(b), Ok(d)) = (&res[0][i], &res[1][i], &res[2][i]) {
+                        let got: Boolean = [a.clone(), b.clone(), d.clone()].reconstruct();
+                        values_ok &= got == xs[i] * xs[i + 1];
+                    }
+                }
+                (res.map(|h| h.into_iter().map(|x| x.map(|_| ())).collect::<Vec<_>>()), values_ok)
+            } else {
+                config.gateway_config = GatewayConfig { active: c.rpb.try_into().unwrap(), ..Default::default() };
+                let world = TestWorld::<NotSharded>::with_config(&config);
+                let xs: Vec<Fp32BitPrime> = (0..=c.count).map(|_| Fp32BitPrime::truncate_from(r.u128())).collect();
+                let res: [RecordResults; 3] = world
+                    .malicious(xs.into_iter(), |ctx, shares: Vec<Replicated<Fp32BitPrime>>| mac_helper(ctx, shares, c.clone(), Arc::clone(&l2)))
+                    .await;
+                (res, true)
+            }
+        };
+        let out = match vlib::run_paused(Duration::from_secs(60), QuietDrop(Some(catch_fut(fut)))) {
+            vlib::Paused::Quiescent => RealOutcome::Stalled,
+            vlib::Paused::Done(Err(p)) => RealOutcome::Panic(p),
+            vlib::Paused::Done(Ok((res, values_ok))) => RealOutcome::Done(res, values_ok),
+        };
+        let l = log.lock().unwrap_or_else(|e| e.into_inner()).clone();
+        (out, l)
+    }
+
+    fn rlog_json(l: &[(usize, bool, usize, bool)]) -> Value {
+        json!(l.iter().map(|(h, rel, i, ok)| if *rel { format!("H{}: release({i}, {})", h + 1, if *ok { "Ok" } else { "Err" }) } else { format!("H{}: req({i})", h + 1) }).collect::<Vec<_>>())
+    }
+
+    fn judge_real(rec: &mut Recorder, c: &RealCase, idx: usize) {
+        let md = Model { rpb: c.rpb, total: c.count };
+        let (out, log) = run_real(c);
+        rec.eval();
+        let cj = c.json(idx);
+        let witness = |extra: Value| {
+            let mut w = cj.clone();
+            w["observed"] = extra;
+            w["log"] = rlog_json(&log);
+            w
+        };
+        rec.seen("real_shapes", format!("{} total={} per_batch={} at_once={}", c.user, c.count, c.rpb, c.all_at_once));
+        let res = match out {
+            RealOutcome::Stalled => {
+                let released = log.iter().filter(|e| e.1).count();
+                rec.violation(
+                    "batched validation did not complete (R6): the three helpers are idle but records are not released",
+                    json!({"rule": "R6", "kind": "real_user_stalled", "user": c.user, "all_at_once": c.all_at_once}),
+                    witness(json!({"releases_seen": released, "expected": 3 * c.count})),
+                );
+                return;
+            }
+            RealOutcome::Panic(p) => {
+                rec.violation(
+                    "batched validation: panic while validating records of an honest, legal run",
+                    json!({"rule": "R0", "kind": "real_user_panic", "user": c.user, "panic": panic_class(&p), "all_at_once": c.all_at_once}),
+                    witness(json!({"panic": p})),
+                );
+                return;
+            }
+            RealOutcome::Done(res, values_ok) => {
+                if !values_ok {
+                    rec.inconclusive(format!("case {idx}: products do not reconstruct (not a C16 matter, run not usable)"));
+                    return;
+                }
+                res
+            }
+        };
+        let mut bad = false;
+        // R1 per helper on the world log
+        for h in 0..3 {
+            let mut req = vec![false; c.count];
+            for (hh, rel, i, _) in &log {
+                if *hh != h || *i >= c.count {
+                    continue;
+                }
+                if !*rel {
+                    req[*i] = true;
+                } else {
+                    let missing: Vec<usize> = md.members(md.batch(*i)).filter(|j| !req[*j]).collect();
+                    if !missing.is_empty() && !bad {
+                        bad = true;
+                        rec.violation(
+                            "batched validation: R1 released before whole batch requested (real user)",
+                            json!({"rule": "R1", "kind": "released_before_whole_batch_requested", "user": c.user}),
+                            witness(json!({"helper": h, "record": i, "not_yet_requested": missing})),
+                        );
+                    }
+                }
+            }
+        }
+        // R2: one verdict per batch and helper; honest batches Ok
+        let tampered_batch = c.tamper.map(|(_, i)| md.batch(i));
+        let mut tamper_rejected = 0;
+        for h in 0..3 {
+            for b in 0..md.nb() {
+                let verdicts: Vec<bool> = md.members(b).map(|i| res[h][i].is_ok()).collect();
+                let all_ok = verdicts.iter().all(|v| *v);
+                let all_err = verdicts.iter().all(|v| !*v);
+                if !all_ok && !all_err && !bad {
+                    bad = true;
+                    rec.violation(
+                        "batched validation: R2 records of one batch got different verdicts (real user)",
+                        json!({"rule": "R2", "kind": "mixed_verdicts_within_batch", "user": c.user, "tampered": tampered_batch == Some(b)}),
+                        witness(json!({"helper": h, "batch": b, "results": md.members(b).map(|i| format!("{:?}", res[h][i])).collect::<Vec<_>>()})),
+                    );
+                }
+                if tampered_batch == Some(b) {
+                    if all_err {
+                        tamper_rejected += 1;
+                    }
+                } else if !all_ok && !bad {
+                    bad = true;
+                    rec.violation(
+                        "batched validation: R2 honest batch not released as Ok (real user)",
+                        json!({"rule": "R2", "kind": "honest_batch_rejected", "user": c.user, "with_tampered_other_batch": tampered_batch.is_some()}),
+                        witness(json!({"helper": h, "batch": b, "results": md.members(b).map(|i| format!("{:?}", res[h][i])).collect::<Vec<_>>()})),
+                    );
+                }
+            }
+        }
+        if bad {
+            return;
+        }
+        if tampered_batch.is_some() {
+            if tamper_rejected == 3 {
+                rec.count(&format!("real_{}_tampered_batch_rejected_others_ok", c.user));
+            } else {
+                rec.inconclusive(format!("case {idx}: tampered batch accepted by {} helper(s) (MAC soundness, not C16)", 3 - tamper_rejected));
+                return;
+            }
+        } else {
+            rec.count(&format!("real_{}_honest_ok", c.user));
+        }
+        rec.add("real_records_released", log.iter().filter(|e| e.1).count() as u64);
+        // was the order in which records reached validate_record on H1 different from 0,1,2,…?
+        let order: Vec<usize> = log.iter().filter(|e| e.0 == 0 && !e.1).map(|e| e.2).collect();
+        if order.windows(2).any(|w| w[0] > w[1]) {
+            rec.count("real_runs_with_out_of_order_requests");
+        }
+        let rel_batches: Vec<usize> = log.iter().filter(|e| e.0 == 0 && e.1).map(|e| md.batch(e.2)).collect();
+        if rel_batches.windows(2).any(|w| w[0] > w[1]) {
+            rec.count("real_runs_with_out_of_order_batch_release");
+        }
+        rec.distinct(&(c.user, c.count, c.rpb, c.all_at_once, c.total_on_ctx, c.tamper, c.delays, c.seed));
+        if rec.want_sample() {
+            let mut s = cj.clone();
+            s["h1_request_order"] = json!(order);
+            rec.sample(s);
+        }
+    }
+
+    #[test]
+    fn verif_c16_real_dzkp() {
+        let env = vlib::env();
+        let mut rec = Recorder::new("C16", "verif_c16_real_dzkp");
+        let only = replay_case();
+        // (records per batch, totals): 1, 2 and 3+ batches, short last batches, batch larger than the default
+        // active work (16) so that the adjusted window matters
+        let shapes: Vec<(usize, Vec<usize>)> =
+            vec![(1, vec![1, 2, 5, 9, 20]), (2, vec![1, 2, 3, 7, 8]), (4, vec![3, 4, 6, 9, 13]), (8, vec![5, 8, 19]), (32, vec![33, 40, 64])];
+        let reps = env.pick(3, 12);
+        let mut idx = 0usize;
+        for (rpb, totals) in &shapes {
+            for total in totals {
+                for all_at_once in [false, true] {
+                    for delays in [true, false] {
+                        for rep in 0..reps {
+                            let my_idx = idx;
+                            idx += 1;
+                            if !env.mine(my_idx) || only.is_some_and(|c| c != my_idx) {
+                                continue;
+                            }
+                            let mut r = VRng::new(env.seed ^ 0xC16_0004, my_idx as u64);
+                            let c = RealCase { user: "dzkp", count: *total, rpb: *rpb, all_at_once, total_on_ctx: r.bool(), tamper: None, delays,
+                                               seed: env.seed.wrapping_mul(100_000).wrapping_add((my_idx * 8 + rep) as u64) };
+                            judge_real(&mut rec, &c, my_idx);
+                        }
+                    }
+                }
+            }
+        }
+        rec.finish();
+    }
+
+    #[test]
+    fn verif_c16_real_mac() {
+        let env = vlib::env();
+        let mut rec = Recorder::new("C16", "verif_c16_real_mac");
+        let only = replay_case();
+        // MAC validator: records per batch = active work of the gateway
+        let shapes: Vec<(usize, Vec<usize>)> = vec![(2, vec![1, 2, 3, 7]), (4, vec![3, 4, 5, 9, 12]), (8, vec![7, 8, 9, 17]), (16, vec![5, 16, 33])];
+        let reps = env.pick(2, 8);
+        let mut idx = 0usize;
+        for (rpb, totals) in &shapes {
+            for total in totals {
+                for all_at_once in [false, true] {
+                    for tampered in [false, true] {
+                        for rep in 0..reps {
+                            let my_idx = idx;
+                            idx += 1;
+                            if !env.mine(my_idx) || only.is_some_and(|c| c != my_idx) {
+                                continue;
+                            }
+                            let mut r = VRng::new(env.seed ^ 0xC16_0005, my_idx as u64);
+                            let tamper = tampered.then(|| (r.below(3) as usize, r.below(*total as u64) as usize));
+                            let c = RealCase { user: "mac", count: *total, rpb: *rpb, all_at_once, total_on_ctx: true, tamper, delays: r.below(4) != 0,
+                                               seed: env.seed.wrapping_mul(100_000).wrapping_add((my_idx * 8 + rep) as u64) };
+                            judge_real(&mut rec, &c, my_idx);
+                        }
+                    }
+                }
+            }
+        }
+        rec.finish();
+    }
+}
